@@ -146,6 +146,12 @@ def body_exponent(case):
     integ, scale = lk_integral(spec, u, rep)
     ref = 1j * u * a0 - 0.5 * sigma ** 2 * u * u + integ
     tol = 1e-7 * (scale + abs(u * a0) + abs(sigma * u) ** 2) + 1e-10
+    # round-off of the closed form itself: CGMY evaluates c*Gamma(-y)*((m - iu)^y - m^y + ...), terms that are large next
+    # to their sum when y is close to 0 or 1 (about ten ulps of the terms are allowed)
+    if spec["family"] == "cgmy" and spec["params"]["y"] not in (0.0, 1.0):
+        p_ = spec["params"]
+        tol += 2e-15 * p_["c"] * abs(math.gamma(-p_["y"])) * (abs(p_["m"] - 1j * u) ** p_["y"] + abs(p_["g"] + 1j * u) ** p_["y"]
+                                                               + p_["m"] ** p_["y"] + p_["g"] ** p_["y"])
     detail = f"u={u!r} model={spec} declared={rep} a={a0!r}"
     if not np.isfinite(val.real) or abs(val.real - ref.real) > tol:
         out.append(Violation(f"C10/exponent-vs-triplet/{br}/real-part",
@@ -173,13 +179,21 @@ def classify_exponent(case):
 @st.composite
 def strat_cumulants(draw, tier):
     spec = draw(model_spec(families=("hem", "merton", "vg", "cgmy", "bs"), exp=None))
-    return {"model": spec, "t": draw(_f(0.1, 3.0))}
+    if spec["family"] == "bs" and draw(st.booleans()):
+        spec["exp"] = None  # the plain pure diffusion mu*t + sigma*W_t
+    return {"model": spec, "t": draw(_f(0.1, 3.0)), "mu": draw(st.sampled_from([0.03, -0.4, 1.7, 0.0]))}
 
 
 def body_cumulants(case):
     out = []
     spec, t = case["model"], case["t"]
-    model = build_model(spec)
+    if spec["family"] == "bs" and not spec["exp"]:
+        # a pure diffusion with a drift of either sign (the exponential Black-Scholes model only ever passes mu = 0)
+        from rpylib.model.levymodel.mixed.blackscholes import PureDiffusiveModel
+
+        model = PureDiffusiveModel(mu=case.get("mu", 0.03), sigma=spec["params"]["sigma"])
+    else:
+        model = build_model(spec)
     levy = getattr(model, "levy_model", model)
     br = branch_of(spec)
     gm, gp = _decay(spec)
@@ -198,6 +212,12 @@ def body_cumulants(case):
         kn = (math.factorial(n) / (n_nodes * rho ** n)) * np.sum(K * np.exp(-1j * n * th))
         ref = float(kn.real) * t
         mag = (math.factorial(n) / rho ** n) * float(np.mean(np.abs(K))) * t
+        # round-off of the exponent itself: CGMY evaluates c*Gamma(-y)*(...), whose terms are large next to their sum when
+        # y is close to 0 or 1 (the tolerance follows the size of the terms, not of the sum)
+        if spec["family"] == "cgmy" and spec["params"]["y"] not in (0.0, 1.0):
+            p_ = spec["params"]
+            terms = p_["c"] * abs(math.gamma(-p_["y"])) * ((p_["m"] + rho) ** p_["y"] + (p_["g"] + rho) ** p_["y"]) * (1 + rho)
+            mag += (math.factorial(n) / rho ** n) * 1e-2 * terms * t
         if abs(lib - ref) > 1e-7 * abs(ref) + 1e-11 * mag + 1e-14:
             out.append(Violation(f"C10/cumulants/{br}/{name}",
                                  f"{name}({t})={lib!r}, derivative of the exponent gives {ref!r}; model={spec}"))
@@ -340,6 +360,21 @@ def body_martingale(case):
                              f"E[S_T] from the characteristic function {cf!r}, forward {math.exp(log_fwd)!r}; {detail}"))
     if abs(float(model.df(T)) - math.exp(-e["r"] * T)) > 1e-14:
         out.append(Violation(f"C10/discount-factor/{br}", f"df({T})={model.df(T)!r}"))
+    # the same route with the argument in an array the caller keeps (a pricer loops over maturities with one frequency
+    # vector): every evaluation equals the scalar one and the caller's array is left as it was
+    for dtype in (complex, float):
+        u = np.array([-1j, 0.3 - 0.2j], dtype=complex) if dtype is complex else np.array([0.0, 0.7], dtype=float)
+        keep = u.copy()
+        vals = [np.asarray(model.log_characteristic_function(T, u), dtype=complex).ravel() for _ in range(2)]
+        scal = np.array([complex(model.log_characteristic_function(T, complex(z) if dtype is complex else float(z))) for z in keep])
+        if not np.array_equal(u, keep):
+            out.append(Violation(f"C10/characteristic-function/argument-array-modified/{br}",
+                                 f"{keep.tolist()} -> {u.tolist()}; {detail}"))
+            break
+        if any(v.shape != scal.shape or not np.allclose(v, scal, rtol=1e-12, atol=1e-300) for v in vals):
+            out.append(Violation(f"C10/characteristic-function/array-evaluation-differs-from-scalar/{br}",
+                                 f"two evaluations at {keep.tolist()}: {[v.tolist() for v in vals]} vs scalar {scal.tolist()}; {detail}"))
+            break
     sigma = float(model.levy_triplet.sigma)
     if spec["family"] == "bs":
         g = float(LevyProcess(model).deterministic_path(np.array([T]))[0]) + 0.5 * sigma ** 2 * T
